@@ -159,7 +159,11 @@ def run(ctx):
                         where=f'{f.module.relpath}:{w.lineno}')
     wd = prog.fn('container:Container._write_data_to_packfile')
     cp = 'compress'
-    comp_calls = [n for n in walk_local(wd.node) if isinstance(n, ast.Call) and isinstance(n.func, ast.Attribute) and n.func.attr in ('compress', 'flush') and 'compressobj' in norm(n.func.value)]
+    # compressor objects by def-use: locals assigned from self._get_compressobj_instance()
+    cobjs = {a.targets[0].id for a in walk_local(wd.node) if isinstance(a, ast.Assign) and isinstance(a.targets[0], ast.Name) and isinstance(a.value, ast.Call)
+             and norm(a.value.func).endswith('_get_compressobj_instance')}
+    comp_calls = [n for n in walk_local(wd.node) if isinstance(n, ast.Call) and isinstance(n.func, ast.Attribute) and n.func.attr in ('compress', 'flush')
+                  and isinstance(n.func.value, ast.Name) and n.func.value.id in cobjs]
     okg = bool(comp_calls)
     for c in comp_calls:
         p = getattr(c, '_parent', None)
@@ -202,7 +206,9 @@ def run(ctx):
     else:
         chk.bad(R2, rp.qualname, f'{dest} = should_compress(...)', 'the destination form is not decided for every object from that object\'s own compressed flag (a cached/earlier answer is reused): '
                 'KEEP would give all objects of a mixed pack the form of the first one', where=f'{rp.module.relpath}:{rf.lineno}')
-    src_var = next((v for v in rowvars if 'compressed' in v), None)
+    from .common import row_column_of
+    colmap = row_column_of(prog, rp, rf)
+    src_var = next((v for v in rowvars if colmap.get(v) == 'compressed'), None)
     tests = [norm(n.test) for n in ast.walk(loop) if isinstance(n, ast.If)]
     need = [f'{src_var} == {dest}', src_var, dest]
     alt = [f'{dest} == {src_var}', src_var, dest]
@@ -335,7 +341,7 @@ def run(ctx):
         else:
             chk.bad(R4, q, "row['size']", 'the recorded size is not the number of bytes read by the pack writer', where=f'{f.module.relpath}:{f.lineno}')
     sz = [n for n in walk_local(rp.node) if isinstance(n, ast.Assign) and isinstance(n.targets[0], ast.Subscript) and isinstance(n.targets[0].slice, ast.Constant) and n.targets[0].slice.value == 'size']
-    if sz and isinstance(sz[0].value, ast.Name) and sz[0].value.id in rowvars and 'size' in sz[0].value.id:
+    if sz and isinstance(sz[0].value, ast.Name) and sz[0].value.id in rowvars and colmap.get(sz[0].value.id) == 'size':
         chk.ok(R4, rp.qualname, norm(sz[0]), detail='size copied from the row', nontrivial=False)
     else:
         chk.bad(R4, rp.qualname, "row['size']", 'repack does not carry over the uncompressed size of the row', where=f'{rp.module.relpath}:{rp.lineno}')
